@@ -15,13 +15,14 @@
     Clause 2 (the *true* regret of the returned profile obeys
     [6 * D * N * (sqrt A + 1 / sqrt T) / sqrt T]) follows for vanilla parameters from
     clause 1 and C02 (the returned bound dominates the true regret): see
-    [Properties/C02.v], theorem [C02_true_regret_rate_vanilla].  For the discounted
-    presets (lcfr, cfr_plus, dcfr, dcfr_prune) it is NOT proved: that is
+    [Properties/C02.v], theorem [C02_true_regret_rate_vanilla], and is proved here for
+    the LCFR preset ([C03_true_regret_rate_lcfr], proofs in [theories/LcfrSpec.v],
+    [theories/LcfrBound.v]).  For cfr_plus, dcfr and dcfr_prune it is NOT proved: that is
     Brown–Sandholm 2019 Thm 3 / Tammelin et al.; the statement is kept below as
     [C03_true_regret_rate_presets_statement] and is decided by the monitor of the check. *)
 From Coq Require Import Reals List Bool NArith.
 From Cfr.theories Require Import Num RInst Tree GameWF Valid Strat Eval Solve SolveValidProofs LoopProofs Incr
-     IterChar RmPotential CfMass CfrRate.
+     IterChar RmPotential CfMass CfrRate LcfrBound.
 Import ListNotations.
 Open Scope R_scope.
 
@@ -92,10 +93,43 @@ Theorem C03_bound_at_rate :
                 b * sqrt (INR t) <= 2 * (hi - lo) * INR (num_infosets g) * sqrt (INR A).
 Proof. exact bound_at_rate. Qed.
 
-(** NOT PROVED (kept visible, unused): the true-regret rate for the discounted presets. *)
+(** 4. clause 2 for the LCFR preset: regrets and average strategy are weighted by the same
+       weights t, so the decomposition / realisation argument of C02 goes through with weights:
+       true regret <= b1 + b2, hence the rate (every stop predicate) *)
+Theorem C03_true_regret_rate_lcfr :
+  forall (g : @game RNum) draw (lo hi : R) (A : nat),
+    WFgame g -> PerfectRecall g -> ChanceOK g -> PayoffsIn lo hi (g_root g) ->
+    (forall pl, Forall (fun a => (a <= A)%nat) (arities g pl)) ->
+    forall budget (stop : R -> bool) strats b1 b2 ran,
+      @solve_single RNum g Full draw (@p_lcfr RNum) budget stop = (strats, Some (b1, b2), ran) ->
+      let T := INR (N.to_nat ran) in
+      @si_regret RNum (@info RNum g strats) <=
+      6 * (hi - lo) * INR (num_infosets g) * (sqrt (INR A) + 1 / sqrt T) / sqrt T.
+Proof. exact lcfr_true_regret_rate_C03. Qed.
+
+Theorem C03_lcfr_bound_dominates_sum :
+  forall (g : @game RNum) draw budget (stop : R -> bool) strats b1 b2 ran,
+    WFgame g -> PerfectRecall g -> ChanceOK g ->
+    @solve_single RNum g Full draw (@p_lcfr RNum) budget stop = (strats, Some (b1, b2), ran) ->
+    @si_regret RNum (@info RNum g strats) <= 1 * (b1 + b2) /\ 0 <= b1 /\ 0 <= b2.
+Proof. exact lcfr_bound_dominates. Qed.
+
+(** for LCFR the *maximum* of the two bounds does not dominate the true regret (which is why
+    C02 is stated for vanilla parameters only): a witness *)
+Theorem C03_lcfr_max_bound_refuted :
+  forall draw : @oracle RNum,
+  exists (g : @game RNum) (budget : nat) (stop : R -> bool) (strats : list R * list R) (b1 b2 : R) (ran : N),
+    WFgame g /\ PerfectRecall g /\ ChanceOK g /\
+    @solve_single RNum g Full draw (@p_lcfr RNum) budget stop = (strats, Some (b1, b2), ran) /\
+    Rmax b1 b2 < @si_regret RNum (@info RNum g strats) /\
+    @si_regret RNum (@info RNum g strats) <= b1 + b2.
+Proof. exact lcfr_max_bound_refuted. Qed.
+
+(** NOT PROVED (kept visible, unused): the true-regret rate for the three presets whose
+    regret discount and averaging weights differ (cfr_plus, dcfr, dcfr_prune). *)
 Definition C03_true_regret_rate_presets_statement : Prop :=
   forall (g : @game RNum) draw (p : @params RNum) (lo hi : R) (A : nat) budget strats b1 b2 ran,
-    In p [@p_lcfr RNum; @p_cfr_plus RNum; @p_dcfr RNum; @p_dcfr_prune RNum] ->
+    In p [@p_cfr_plus RNum; @p_dcfr RNum; @p_dcfr_prune RNum] ->
     WFgame g -> PerfectRecall g -> ChanceOK g -> PayoffsIn lo hi (g_root g) ->
     (forall pl, Forall (fun a => (a <= A)%nat) (arities g pl)) ->
     @solve_single RNum g Full draw p budget (fun _ => false) = (strats, Some (b1, b2), ran) ->
@@ -119,4 +153,7 @@ Print Assumptions C03_increment_bounded.
 Print Assumptions C03_bound_rate.
 Print Assumptions C03_bound_rate_vanilla.
 Print Assumptions C03_bound_at_rate.
+Print Assumptions C03_true_regret_rate_lcfr.
+Print Assumptions C03_lcfr_bound_dominates_sum.
+Print Assumptions C03_lcfr_max_bound_refuted.
 Print Assumptions C03_example.
